@@ -14,6 +14,7 @@ import (
 	"sort"
 	"strconv"
 	"sync"
+	"sync/atomic"
 	"testing"
 	"testing/iotest"
 	"time"
@@ -87,6 +88,18 @@ func TestDrv_C05(t *testing.T) {
 			tgts = append(tgts, vegeta.Target{Method: "GET", URL: "http://verif.invalid/a"}, vegeta.Target{Method: "BAD METHOD", URL: "http://verif.invalid/"})
 		}
 		tgt := vegeta.NewStaticTargeter(tgts...)
+		if ci%4 == 2 {
+			// a targeter that is slow once and then fails (a lazily read list with a bad entry): the hit that drew the failure
+			// was stamped before the hits that overtook it
+			inner, calls, failAt := tgt, new(int64), int64(per/3+1)
+			tgt = func(t *vegeta.Target) error {
+				if atomic.AddInt64(calls, 1) == failAt {
+					time.Sleep(3 * time.Millisecond)
+					return errors.New("scripted targeter failure")
+				}
+				return inner(t)
+			}
+		}
 		rt.start = time.Now()
 		var got []*vegeta.Result
 		for r := range atk.Attack(tgt, vegeta.ConstantPacer{Freq: c.rate, Per: time.Second}, 0, "c05") {
